@@ -12,6 +12,7 @@ import (
 	"github.com/enbility/spine-go/internal/verifh/world"
 	"github.com/enbility/spine-go/model"
 	"github.com/enbility/spine-go/spine"
+	"github.com/enbility/spine-go/util"
 )
 
 // C07 — the local device tree is announced faithfully and addressed uniquely.
@@ -536,6 +537,64 @@ func c07Scenarios() []*engine.SScenario {
 			return rt.Outcome{Res: res, Violations: append(viol, panicsAndDeadlocks(res)...), Digest: dig}
 		}}
 	}
+	// an entity is added / removed while the subscribed peer's own announcement (a repeated discovery reply, a
+	// re-announcement of one of its entities) is being processed on its connection: the peer is subscribed
+	// throughout and gets exactly one notification describing the entity
+	notifyVs := func(name string, add bool, peerMsg func(l *ltWorld) model.DatagramType) *engine.SScenario {
+		return &engine.SScenario{Name: name, Run: func(cfg rt.Config) rt.Outcome {
+			var viol []string
+			var dig string
+			res := rt.Execute(cfg, func() {
+				l := newLTWorld()
+				rt.WaitIdle()
+				for _, op := range []string{"feat:e1:lc:s", "feat:e2:lc:c", "addent:e1"} {
+					l.apply(op, false)
+				}
+				if !add {
+					l.apply("addent:e2", false)
+				}
+				a := l.w.Peers["A"]
+				d := peerMsg(l)
+				mark := l.w.Mark()
+				rt.BeginExplore()
+				rt.Go(func() { a.Deliver(d) })
+				rt.Go(func() {
+					if add {
+						l.w.L.AddEntity(l.ents["e2"])
+					} else {
+						l.w.L.RemoveEntity(l.ents["e2"])
+					}
+				})
+				rt.WaitIdle()
+				rt.JoinFinished()
+				n := 0
+				for _, o := range l.w.Since(mark) {
+					if o.Conn == "A" && o.Class == "notify" && o.Cmd.NodeManagementDetailedDiscoveryData != nil {
+						n++
+					}
+					if o.Conn == "B" && o.Class == "notify" {
+						viol = append(viol, "a peer that is not subscribed to node management was notified | "+o.String())
+					}
+				}
+				if n != 1 {
+					viol = append(viol, fmt.Sprintf("a peer subscribed to node management did not get exactly one notification for an entity change | notifications=%d", n))
+				}
+				dig = fmt.Sprint(n)
+			})
+			return rt.Outcome{Res: res, Violations: append(viol, panicsAndDeadlocks(res)...), Digest: dig}
+		}}
+	}
+	reply := func(l *ltWorld) model.DatagramType {
+		a := l.w.Peers["A"]
+		return a.DiscoveryReply([]world.EntSpec{clientEntity([]uint{1})})
+	}
+	reannounce := func(l *ltWorld) model.DatagramType {
+		a := l.w.Peers["A"]
+		st := model.NetworkManagementStateChangeTypeAdded
+		cmd := model.CmdType{Function: util.Ptr(model.FunctionTypeNodeManagementDetailedDiscoveryData), Filter: []model.FilterType{*model.NewFilterTypePartial()},
+			NodeManagementDetailedDiscoveryData: a.DiscoveryData([]world.EntSpec{clientEntity([]uint{1})}, false, &st)}
+		return a.Datagram(a.NM(), world.LocalNM(), model.CmdClassifierTypeNotify, false, nil, cmd)
+	}
 	// features built by hand: the number is drawn with NextFeatureId, then the feature is added; a third caller uses GetOrAddFeature
 	manual := &engine.SScenario{Name: "NextFeatureId + AddFeature from two callers | GetOrAddFeature", Run: func(cfg rt.Config) rt.Outcome {
 		var viol []string
@@ -579,6 +638,9 @@ func c07Scenarios() []*engine.SScenario {
 		readVs("discovery read | RemoveEntity of a middle entity", func(l *ltWorld) { l.w.L.RemoveEntity(l.ents["e11"]) }),
 		readVs("discovery read | RemoveEntity of the first entity", func(l *ltWorld) { l.w.L.RemoveEntity(l.ents["e1"]) }),
 		readVs("discovery read | AddEntity", func(l *ltWorld) { l.w.L.AddEntity(l.ents["e2"]) }),
+		notifyVs("the subscriber's repeated discovery reply | AddEntity", true, reply),
+		notifyVs("the subscriber's repeated discovery reply | RemoveEntity", false, reply),
+		notifyVs("the subscriber re-announces an entity | AddEntity", true, reannounce),
 		mk("two callers, same type and role", [][2]string{{"lc", "s"}, {"lc", "s"}}),
 		mk("three callers, same type and role", [][2]string{{"lc", "s"}, {"lc", "s"}, {"lc", "s"}}),
 		mk("three callers, two types", [][2]string{{"lc", "s"}, {"ms", "s"}, {"lc", "s"}}),
